@@ -108,13 +108,19 @@ async fn scenario(a: &ShardArgs, idx: u64) {
     let mut polls: Vec<PollM> = vec![];
     for i in 0..n_assoc {
         for j in 0..r.usize_below(3) {
-            let period = *r.pick(&[300u64, 700, 1000, 2500]);
+            // one poll in six never comes due by itself (the longest period there is): it runs when demanded only, and the
+            // other polls keep their periods next to it
+            let demand_only = r.chance(1, 6);
+            let period = if demand_only { 1u64 << 50 } else { *r.pick(&[300u64, 700, 1000, 2500]) };
             let mut h = sim.assocs[i].1.clone();
             let now = sim.now();
+            if demand_only {
+                out::count("demand_only_polls", 1);
+            }
             let ph = h
                 .add_poll(
                     crate::master::ReadRequest::all_objects(vars[j].0),
-                    std::time::Duration::from_millis(period),
+                    if demand_only { std::time::Duration::MAX } else { std::time::Duration::from_millis(period) },
                 )
                 .await;
             settle().await;
